@@ -179,4 +179,237 @@ theorem bam_flat_take (sem : BamSem) {h : Bytes} (hh : HdrOk sem h) {rs : List R
     rw [List.take_append, List.take_of_length_le hge]
     exact hh.accepts _ e
 
+/-! ### the BAM header, concretely: every header laid out as the SAM specification says is `HdrOk` -/
+
+theorem readFull_append {a : Bytes} {n : Nat} (ha : a.length = n) (hn : n ≠ 0) (t : Bytes) (e : Err) :
+    (⟨a ++ t, e⟩ : Flat).readFull n = .ok (a, ⟨t, e⟩) := by
+  have l : (a ++ t).length ≥ n := by simp [ha]
+  simp only [Flat.readFull, hn, if_false, l, if_true, List.take_left' ha, List.drop_left' ha]
+
+theorem readFull_short {d : Bytes} {n : Nat} (h : d.length < n) (e : Err) :
+    ∃ e', (⟨d, e⟩ : Flat).readFull n = .error e' := by
+  have hn : n ≠ 0 := by omega
+  have l : ¬ d.length ≥ n := by omega
+  simp only [Flat.readFull, hn, if_false, l]
+  split
+  · exact ⟨_, rfl⟩
+  · exact ⟨_, rfl⟩
+
+theorem read_append {a : Bytes} {n : Nat} (ha : a.length = n) (t : Bytes) (hne : a ++ t ≠ []) (e : Err) :
+    (⟨a ++ t, e⟩ : Flat).read n = .ok (a, ⟨t, e⟩) := by
+  have l : (a ++ t).length ≥ n := by simp [ha]
+  simp only [Flat.read, hne, if_false, l, if_true, List.take_left' ha, List.drop_left' ha]
+
+theorem read_short {d : Bytes} {n : Nat} (h : d.length < n) (e : Err) :
+    ∃ e', (⟨d, e⟩ : Flat).read n = .error e' := by
+  have l : ¬ d.length ≥ n := by omega
+  simp only [Flat.read, l, if_false]
+  split
+  · exact ⟨_, rfl⟩
+  · exact ⟨_, rfl⟩
+
+/-- take of an append, by cases on where the cut falls -/
+theorem take_append_cases (a b : Bytes) (n : Nat) :
+    (n < a.length ∧ (a ++ b).take n = a.take n) ∨
+    (a.length ≤ n ∧ (a ++ b).take n = a ++ b.take (n - a.length)) := by
+  by_cases h : n < a.length
+  · exact Or.inl ⟨h, List.take_append_of_le_length (by omega)⟩
+  · exact Or.inr ⟨by omega, by rw [List.take_append, List.take_of_length_le (by omega)]⟩
+
+/-- a reference entry of the binary header: `l_name`, the NUL-terminated name, `l_ref` -/
+structure Ref where
+  ln : Bytes
+  name : Bytes
+  lref : Bytes
+
+namespace Ref
+
+def bytes (r : Ref) : Bytes := r.ln ++ (r.name ++ r.lref)
+
+structure WellFormed (r : Ref) : Prop where
+  lnLen : r.ln.length = 4
+  lnVal : leNat r.ln = r.name.length
+  namePos : 1 ≤ r.name.length
+  nameSmall : r.name.length < 2147483648
+  nul : r.name.getLast? = some 0
+  lrefLen : r.lref.length = 4
+
+theorem bytes_length {r : Ref} (h : r.WellFormed) : r.bytes.length = 4 + (r.name.length + 4) := by
+  simp [bytes, h.lnLen, h.lrefLen]
+
+end Ref
+
+def refsBytes (rs : List Ref) : Bytes := (rs.map Ref.bytes).flatten
+
+theorem refsBytes_cons (r : Ref) (rs : List Ref) : refsBytes (r :: rs) = r.bytes ++ refsBytes rs := by
+  simp [refsBytes]
+
+/-- one reference entry followed by anything -/
+theorem bamRefs_step (k : Nat) {r : Ref} (h : r.WellFormed) (t : Bytes) (e : Err) :
+    bamRefs (k + 1) ⟨r.bytes ++ t, e⟩ = bamRefs k ⟨t, e⟩ := by
+  have h4 : (4 : Nat) ≠ 0 := by decide
+  have hp := h.namePos
+  have hs := h.nameSmall
+  have e1 : r.bytes ++ t = r.ln ++ (r.name ++ (r.lref ++ t)) := by simp [Ref.bytes]
+  have ne : r.name ++ (r.lref ++ t) ≠ [] := by
+    intro hc
+    have := congrArg List.length hc
+    simp only [List.length_append, List.length_nil] at this; omega
+  have c1 : ¬ (r.name.length ≥ 2147483648 ∨ r.name.length < 1) := by omega
+  rw [bamRefs, e1, readFull_append h.lnLen h4]
+  simp only [h.lnVal, c1, if_false]
+  rw [read_append rfl _ ne]
+  simp only [h.nul, ne_eq, not_true_eq_false, if_false]
+  rw [readFull_append h.lrefLen h4]
+
+theorem bamRefs_refs {rs : List Ref} (hwf : ∀ r ∈ rs, r.WellFormed) (t : Bytes) (e : Err) :
+    bamRefs rs.length ⟨refsBytes rs ++ t, e⟩ = .ok ⟨t, e⟩ := by
+  induction rs with
+  | nil => simp [refsBytes, bamRefs]
+  | cons r rs ih =>
+    rw [List.length_cons, refsBytes_cons, List.append_assoc, bamRefs_step _ (hwf r (by simp))]
+    exact ih (fun x hx => hwf x (by simp [hx]))
+
+theorem bamRefs_refs_prefix {rs : List Ref} (hwf : ∀ r ∈ rs, r.WellFormed) (n : Nat)
+    (hn : n < (refsBytes rs).length) (e : Err) :
+    ∃ e', bamRefs rs.length ⟨(refsBytes rs).take n, e⟩ = .error e' := by
+  induction rs generalizing n with
+  | nil => simp [refsBytes] at hn
+  | cons r rs ih =>
+    have hr := hwf r (by simp)
+    have h4 : (4 : Nat) ≠ 0 := by decide
+    have hp := hr.namePos
+    have hs := hr.nameSmall
+    have c1 : ¬ (r.name.length ≥ 2147483648 ∨ r.name.length < 1) := by omega
+    have lnl := hr.lnLen
+    have lrl := hr.lrefLen
+    rw [refsBytes_cons] at hn ⊢
+    rw [List.length_cons]
+    rcases take_append_cases r.bytes (refsBytes rs) n with ⟨hlt, ht⟩ | ⟨hge, ht⟩
+    · -- the cut is inside this entry
+      rw [ht, Ref.bytes]
+      rw [Ref.bytes_length hr] at hlt
+      rcases take_append_cases r.ln (r.name ++ r.lref) n with ⟨h1, t1⟩ | ⟨h1, t1⟩
+      · rw [t1, bamRefs]
+        obtain ⟨e', he'⟩ := readFull_short (d := r.ln.take n) (n := 4) (by rw [List.length_take]; omega) e
+        exact ⟨e', by rw [he']⟩
+      · rw [t1, bamRefs, readFull_append hr.lnLen h4]
+        simp only [hr.lnVal, c1, if_false]
+        rw [hr.lnLen] at h1 ⊢
+        rcases take_append_cases r.name r.lref (n - 4) with ⟨h2, t2⟩ | ⟨h2, t2⟩
+        · rw [t2]
+          obtain ⟨e', he'⟩ := read_short (d := r.name.take (n - 4)) (n := r.name.length)
+            (by rw [List.length_take]; omega) e
+          exact ⟨e', by rw [he']⟩
+        · have ne : r.name ++ r.lref.take (n - 4 - r.name.length) ≠ [] := by
+            intro hc
+            have := congrArg List.length hc
+            simp only [List.length_append, List.length_nil] at this; omega
+          rw [t2, read_append rfl _ ne]
+          simp only [hr.nul, ne_eq, not_true_eq_false, if_false]
+          obtain ⟨e', he'⟩ := readFull_short (d := r.lref.take (n - 4 - r.name.length)) (n := 4)
+            (by rw [List.length_take]; omega) e
+          exact ⟨e', by rw [he']⟩
+    · -- this entry is intact
+      rw [ht, bamRefs_step _ hr]
+      apply ih (fun x hx => hwf x (by simp [hx]))
+      rw [List.length_append] at hn
+      omega
+
+/-- a binary BAM header: magic, `l_text`, text, `n_ref`, reference entries -/
+structure Hdr where
+  lt : Bytes
+  text : Bytes
+  nr : Bytes
+  refs : List Ref
+
+namespace Hdr
+
+def bytes (h : Hdr) : Bytes := bamMagic ++ (h.lt ++ (h.text ++ (h.nr ++ refsBytes h.refs)))
+
+structure WellFormed (sem : BamSem) (h : Hdr) : Prop where
+  ltLen : h.lt.length = 4
+  ltVal : leNat h.lt = h.text.length
+  textSmall : h.text.length < 2147483648
+  textOk : sem.textOk h.text = true
+  nrLen : h.nr.length = 4
+  nrVal : leNat h.nr = h.refs.length
+  refsSmall : h.refs.length < 2147483648
+  refs : ∀ r ∈ h.refs, r.WellFormed
+
+end Hdr
+
+theorem hdrOk_of_wellFormed (sem : BamSem) (h : Hdr) (hw : h.WellFormed sem) : HdrOk sem h.bytes := by
+  have h4 : (4 : Nat) ≠ 0 := by decide
+  have hml : bamMagic.length = 4 := rfl
+  have ts := hw.textSmall
+  have rsm := hw.refsSmall
+  have c1 : ¬ h.text.length ≥ 2147483648 := by omega
+  have c2 : ¬ h.refs.length ≥ 2147483648 := by omega
+  have ltl := hw.ltLen
+  have nrl := hw.nrLen
+  constructor
+  · intro t e
+    have e1 : h.bytes ++ t = bamMagic ++ (h.lt ++ (h.text ++ (h.nr ++ (refsBytes h.refs ++ t)))) := by
+      simp [Hdr.bytes]
+    have ne : h.text ++ (h.nr ++ (refsBytes h.refs ++ t)) ≠ [] := by
+      intro hc
+      have := congrArg List.length hc
+      simp [hw.nrLen] at this
+    rw [bamHeader, e1, readFull_append hml h4]
+    simp only [ne_eq, not_true_eq_false, if_false]
+    rw [readFull_append hw.ltLen h4]
+    simp only [hw.ltVal, c1, if_false]
+    rw [read_append rfl _ ne]
+    simp only [hw.textOk, Bool.not_true, Bool.false_eq_true, if_false]
+    rw [readFull_append hw.nrLen h4]
+    simp only [hw.nrVal, c2, if_false]
+    exact bamRefs_refs hw.refs t e
+  · intro n hn e
+    rw [Hdr.bytes] at hn ⊢
+    simp only [List.length_append, hml, hw.ltLen, hw.nrLen] at hn
+    rcases take_append_cases bamMagic (h.lt ++ (h.text ++ (h.nr ++ refsBytes h.refs))) n with ⟨h1, t1⟩ | ⟨h1, t1⟩
+    · rw [t1, bamHeader]
+      obtain ⟨e', he'⟩ := readFull_short (d := bamMagic.take n) (n := 4) (by rw [List.length_take]; omega) e
+      exact ⟨e', by rw [he']⟩
+    · rw [t1, bamHeader, readFull_append hml h4]
+      simp only [ne_eq, not_true_eq_false, if_false]
+      rw [hml] at h1 ⊢
+      rcases take_append_cases h.lt (h.text ++ (h.nr ++ refsBytes h.refs)) (n - 4) with ⟨h2, t2⟩ | ⟨h2, t2⟩
+      · rw [t2]
+        obtain ⟨e', he'⟩ := readFull_short (d := h.lt.take (n - 4)) (n := 4) (by rw [List.length_take]; omega) e
+        exact ⟨e', by rw [he']⟩
+      · rw [t2, readFull_append hw.ltLen h4]
+        simp only [hw.ltVal, c1, if_false]
+        rw [hw.ltLen] at h2 ⊢
+        rcases take_append_cases h.text (h.nr ++ refsBytes h.refs) (n - 4 - 4) with ⟨h3, t3⟩ | ⟨h3, t3⟩
+        · rw [t3]
+          obtain ⟨e', he'⟩ := read_short (d := h.text.take (n - 4 - 4)) (n := h.text.length)
+            (by rw [List.length_take]; omega) e
+          exact ⟨e', by rw [he']⟩
+        · rw [t3]
+          rcases take_append_cases h.nr (refsBytes h.refs) (n - 4 - 4 - h.text.length) with ⟨h5, t5⟩ | ⟨h5, t5⟩
+          · -- the cut is inside n_ref: the text may be read (or, if everything after l_text is
+            -- missing, the single Read already fails), then n_ref is short
+            rw [t5]
+            by_cases hem : h.text ++ h.nr.take (n - 4 - 4 - h.text.length) = []
+            · rw [hem]
+              exact ⟨e, by simp [Flat.read]⟩
+            · rw [read_append rfl _ hem]
+              simp only [hw.textOk, Bool.not_true, Bool.false_eq_true, if_false]
+              obtain ⟨e', he'⟩ := readFull_short (d := h.nr.take (n - 4 - 4 - h.text.length)) (n := 4)
+                (by rw [List.length_take]; omega) e
+              exact ⟨e', by rw [he']⟩
+          · have ne : h.text ++ (h.nr ++ (refsBytes h.refs).take (n - 4 - 4 - h.text.length - h.nr.length)) ≠ [] := by
+              intro hc
+              have := congrArg List.length hc
+              simp [hw.nrLen] at this
+            rw [t5, read_append rfl _ ne]
+            simp only [hw.textOk, Bool.not_true, Bool.false_eq_true, if_false]
+            rw [readFull_append hw.nrLen h4]
+            simp only [hw.nrVal, c2, if_false]
+            apply bamRefs_refs_prefix hw.refs
+            rw [hw.nrLen] at h5 ⊢
+            omega
+
 end Hts.Lemmas.BgzfBytes
